@@ -48,8 +48,22 @@ def num(s, as_int_ok=True):
     return int(f) if f.denominator == 1 else f
 
 
+def dec(s):
+    """exact Decimal of a protocol number whose denominator is a power of ten"""
+    from decimal import Decimal, localcontext
+    f = Fraction(s)
+    with localcontext() as ctx:
+        ctx.prec = 200
+        d = Decimal(f.numerator) / Decimal(f.denominator)
+    if Fraction(d) != f:
+        raise ValueError(f'not a finite decimal: {s}')
+    return d
+
+
 def py_votes(case):
-    return {py_ballot(b): num(w) for b, w in case['votes']}
+    """case weights as votelib sees them: int / Fraction, or Decimal when the case says wtype = decimal"""
+    conv = dec if case.get('wtype') == 'decimal' else num
+    return {py_ballot(b): conv(w) for b, w in case['votes']}
 
 
 def py_alloc(alloc):
@@ -88,17 +102,62 @@ def seats_dict(l):
 # ------------------------------------------------------------------------------------------------
 # configuration
 
+REF_QUOTAS = {
+    # textbook definitions, written here independently of votelib.component.quota (checklist item 8)
+    'droop': lambda v, n: Fraction(v) // (n + 1) + 1 if Fraction(v) >= 0 else None,
+    'hare': lambda v, n: Fraction(v) / n,
+    'hagenbach_bischoff': lambda v, n: Fraction(v) / (n + 1),
+}
+
+
+def quota_is_const(q):
+    return isinstance(q, str) and q.startswith('const:')
+
+
+def ref_quota(case, total, n):
+    """the quota value the configuration of the case must produce (None = no finite quota), from the textbook"""
+    q = case.get('quota')
+    if q is None or not total or not n:
+        return None
+    if quota_is_const(q):
+        return Fraction(q[6:])
+    f = REF_QUOTAS.get(q)
+    return f(Fraction(total), n) if f else None
+
+
+def make_quota(case):
+    """quota_function argument in the form the case asks for: name (default), the callable itself, a constant object"""
+    import votelib.component.quota as vq
+    q = case.get('quota')
+    if q is None:
+        return None
+    if quota_is_const(q):
+        return vq.constant(num(q[6:]))
+    if case.get('quota_form') == 'callable':
+        return getattr(vq, q)
+    return q
+
+
 def make_distributor(case):
     import votelib.evaluate.sequential as seq
+    import votelib.evaluate.core as vcore
     import votelib.component.transfer as tr
-    t = tr.Gregory() if case['method'] == 'gregory' else tr.Hare(seed=case.get('seed', 0))
+    if case.get('transferer_form') == 'name':
+        # by class name; `Hare` then has no seed (draws are recorded anyway)
+        t = 'Gregory' if case['method'] == 'gregory' else 'Hare'
+    else:
+        t = tr.Gregory() if case['method'] == 'gregory' else tr.Hare(seed=case.get('seed', 0))
+    kw = {}
+    if case.get('retainer') == 'plurality':
+        kw['retainer'] = vcore.Plurality()      # same ranking as the built-in get_n_best, other code path (L329-332)
     return seq.TransferableVoteDistributor(
-        transferer=t, eliminate_step=case.get('step', -1), quota_function=case.get('quota'),
-        accept_quota_equal=case.get('accept_equal', True), mandatory_quota=case.get('mandatory', False))
+        transferer=t, eliminate_step=case.get('step', -1), quota_function=make_quota(case),
+        accept_quota_equal=case.get('accept_equal', True), mandatory_quota=case.get('mandatory', False), **kw)
 
 
 def cfg_line(case):
-    return {'method': case['method'], 'quota': case.get('quota'), 'accept_equal': case.get('accept_equal', True),
+    q = case.get('quota')
+    return {'method': case['method'], 'quota': (q[6:] if quota_is_const(q) else q), 'accept_equal': case.get('accept_equal', True),
             'mandatory': case.get('mandatory', False), 'step': case.get('step', -1)}
 
 
@@ -218,9 +277,20 @@ def record_run(case, call):
                         'eliminated': eliminated, 'quota': qstr(quotas[-1]) if quotas else None})
             counts.append(rec)
             return new_alloc, newly
+        sel = seq.TransferableVoteSelector(dist)
+        warm = case.get('warmup')
+        if warm:
+            # the SAME evaluator object first counts another election (possibly refused); nothing of it may survive
+            wv = {py_ballot(b): num(w) for b, w in warm['votes']}
+            try:
+                call_with_timeout(lambda: sel.evaluate(wv, warm['n']), 5)
+            except Exception:      # noqa
+                pass
+            del dr.calls[:]
+            del dr.bad[:]
+            tap.take()
         dist.next_count = wrap_next
         dist._compute_quota = wrap_q
-        sel = seq.TransferableVoteSelector(dist)
         msg = None
         try:
             res = call_with_timeout(lambda: call(dist, sel), 5)
@@ -254,7 +324,7 @@ def rand_ballot(rng, m, shared_p=0.0, trunc_p=0.5, empty_p=0.02, first_from=None
     i = 0
     while i < len(perm):
         if rng.random() < shared_p and i + 1 < len(perm) and not (first_from and i == 0):
-            k = rng.randint(2, min(3, len(perm) - i))
+            k = rng.randint(2, min(4, len(perm) - i))
             out.append(sorted(perm[i:i + k]))
             i += k
         else:
@@ -302,14 +372,97 @@ def has_shared(b):
 
 
 def describe_case(case):
-    cfgs = (f"transferer={'Gregory()' if case['method'] == 'gregory' else 'Hare(seed=%r)' % case.get('seed', 0)}, "
-            f"eliminate_step={case.get('step', -1)}, quota_function={case.get('quota')!r}, "
+    tdesc = (repr('Gregory' if case['method'] == 'gregory' else 'Hare') if case.get('transferer_form') == 'name'
+             else ('Gregory()' if case['method'] == 'gregory' else 'Hare(seed=%r)' % case.get('seed', 0)))
+    q = case.get('quota')
+    qdesc = (f'quota.constant({q[6:]})' if quota_is_const(q) else f'quota.{q}' if case.get('quota_form') == 'callable' else repr(q))
+    cfgs = (f"transferer={tdesc}, " + ("retainer=Plurality(), " if case.get('retainer') else '') +
+            f"eliminate_step={case.get('step', -1)}, quota_function={qdesc}, "
             f"accept_quota_equal={case.get('accept_equal', True)}, mandatory_quota={case.get('mandatory', False)}")
     if 'votes' in case:
         votes = py_votes(case)
+        if case.get('warmup'):
+            cfgs += '; the same object first evaluates ' + repr(({py_ballot(b): num(w) for b, w in case['warmup']['votes']}, case['warmup']['n']))
         if case.get('form', 'selector') == 'selector':
             return f"TransferableVoteSelector({cfgs}).evaluate({votes!r}, {case['n']})"
         return (f"TransferableVoteDistributor({cfgs}).evaluate({votes!r}, {case['n']}, "
                 f"prev_gains={seats_dict(case.get('prev'))!r}, max_seats={seats_dict(case.get('max'))!r})")
     return (f"TransferableVoteDistributor({cfgs}).next_count({py_alloc(case['alloc'])!r}, {case['n']}, {case['total']}, "
             f"prev_gains={seats_dict(case.get('prev'))!r}, max_seats={seats_dict(case.get('max'))!r})")
+
+
+# ------------------------------------------------------------------------------------------------
+# directed shapes of the generator audit (harness/GENERATOR_CHECKLIST.md)
+
+def big_boundary_profile(rng, n, delta, k=1):
+    """integer weights of 10^15 .. 10^30: candidate 0 holds exactly k Droop quotas (delta = 0), one vote less (-1) or one more
+    (+1); pile x quota is far above 2^53, so any float in `total // quota`, `n * quota` or the surplus fraction shows"""
+    e = rng.choice([15, 16, 18, 20, 25, 30])
+    q = 10 ** e + rng.randint(1, 999)
+    V = (n + 1) * (q - 1) + rng.randint(0, n)          # Droop quota of V votes for n seats is exactly q
+    a = k * q + delta
+    rest = V - a
+    m = n + 2
+    parts = []
+    left = rest
+    for i in range(1, m):
+        share = left if i == m - 1 else min(left, q - 1 - rng.randint(1, 10 ** (e - 3)))
+        parts.append(share)
+        left -= share
+    if left != 0 or any(p < 0 for p in parts):
+        parts[-1] += left
+    votes = [[[0, 1], str(a)]]
+    for i, p in enumerate(parts, start=1):
+        if p > 0:
+            votes.append([[i, (i % (m - 1)) + 1] if i % 2 else [i], str(p)])
+    return votes, q, V
+
+
+def near_tie_big_profile(rng):
+    """elimination decided by one vote at 10^18 .. 10^30"""
+    v = 10 ** rng.choice([18, 24, 30]) + rng.randint(0, 9)
+    return [[[0, 2], str(v)], [[1, 2], str(v + 1)], [[2], str(3 * v)]]
+
+
+def shared_only_profile(rng):
+    """candidate 0 occurs ONLY inside shared ranks (families.gen_ranked_shared_only), enough weight for several seats"""
+    w = rng.choice([6, 8, 10])
+    prof = [[[[0, 1]], str(w)], [[[0, 2]], str(w)], [[3], str(rng.randint(1, 3))], [[[1, 2, 4], 3], str(rng.randint(1, 2))]]
+    if rng.random() < 0.5:
+        prof.append([[[0, 1, 2, 5]], str(rng.randint(1, 4))])
+    rng.shuffle(prof)
+    return prof
+
+
+def exhausted_quota_profile(rng, n=2):
+    """bullet votes for candidates that leave early: the exhausted pile grows to several quotas"""
+    x = rng.randint(0, 3)
+    votes = [[[0], str(40 + x)], [[1, 2], '9'], [[2], '8'], [[3], '7'], [[4], '6'], [[5, 1], '5']]
+    return votes
+
+
+def decimal_profile(rng, long=False):
+    """finite-decimal weights without shared ranks (Decimal works with quota_function=None: no Fraction() of a weight is taken)"""
+    def w():
+        if long:
+            return Fraction(rng.randint(1, 10 ** 9), 10 ** rng.choice([7, 8, 9]))
+        return Fraction(rng.randint(1, 400), rng.choice([1, 10, 100]))
+    m = rng.randint(3, 5)
+    votes = {}
+    for _ in range(rng.randint(3, 7)):
+        b = rand_ballot(rng, m, 0.0, empty_p=0)
+        votes[json.dumps(b)] = (b, w())
+    return [[b, num_str(x)] for b, x in votes.values()]
+
+
+def warmup_variants(rng, votes, n):
+    """other elections the same object counts first: a refused one (tie), a larger profile, a different seat number"""
+    cands = profile_cands(votes)
+    kind = rng.choice(['refusal', 'larger', 'other_n', 'big'])
+    if kind == 'refusal':
+        return kind, {'votes': [[[0], '2'], [[1], '2'], [[2], '4']], 'n': 1}
+    if kind == 'larger':
+        return kind, {'votes': rand_profile(rng, 6, 10, 0.1, 'mid', False, empty_p=0), 'n': rng.randint(1, 3)}
+    if kind == 'big':
+        return kind, {'votes': [[b, num_str(Fraction(w) * 10 ** 12 + 7)] for b, w in votes], 'n': n}
+    return kind, {'votes': votes, 'n': (n % max(1, len(cands))) + 1}
